@@ -71,6 +71,10 @@ type World struct {
 	// MetaSeed (non-zero): the input files get drawn modification times (some newer than -o, some in the
 	// future), drawn permission bits and are created in a drawn order: same contents, other metadata
 	MetaSeed uint64 `json:"meta_seed,omitempty"`
+	// StrayConfigs: configuration-looking files that nobody passed with -i lie around the working
+	// directory: in its ancestors, in $HOME and below $HOME/.config (a colleague's defaults file, another
+	// project's container): same inputs, same flags - nothing may change
+	StrayConfigs bool `json:"stray_configs,omitempty"`
 	// ChainDeep: see OutKind "symlink-chain"
 	ChainDeep bool `json:"chain_deep,omitempty"`
 	// Peers: further build commands that run concurrently with this one, as processes of their own, in
@@ -517,6 +521,19 @@ func execPhase(t Target, w *World, top string, phase int) *Result {
 				at = time.Now().Add(-240*time.Hour + time.Duration(choice.Mix(w.MetaSeed, uint64(2000+fi))%(264*3600))*time.Second)
 			}
 			_ = os.Chtimes(inPath(f.Path), at, at)
+		}
+	}
+	if w.StrayConfigs && (phase == phaseAll || phase == phaseSetup) {
+		stray := "parameters:\n  strayParam: 1\nservices:\n  strayService:\n    value: \"os.Stdout\"\nmeta:\n  pkg: stray\n  container_type: Stray\n"
+		dirs := []string{top, filepath.Dir(cwd), home, filepath.Join(home, ".config"), filepath.Join(home, ".config", "gontainer"), filepath.Join(home, ".gontainer")}
+		for _, d := range dirs {
+			if d == cwd {
+				continue
+			}
+			_ = os.MkdirAll(d, 0755)
+			for _, n := range []string{".gontainer.yaml", ".gontainer.yml", "gontainer.yaml", "gontainer.yml", ".gontainerrc", "config.yaml", "defaults.yaml"} {
+				_ = os.WriteFile(filepath.Join(d, n), []byte(stray), 0644)
+			}
 		}
 	}
 	if w.CwdGo && (phase == phaseAll || phase == phaseSetup) {
